@@ -38,6 +38,32 @@ def assumption_guards(pid):
     return problems
 
 
+def new_functions():
+    """Functions in /repo/src (outside #[cfg(test)]) that did not exist when the contracts were written (fn_inventory.json, committed): they are
+    outside every contract. Returns [(file, name)]."""
+    try:
+        inv = json.load(open(os.path.join(VERIF, 'fn_inventory.json')))
+    except OSError:
+        return []
+    out = []
+    import glob as _glob
+    for f in sorted(_glob.glob(os.path.join(REPO, 'src', '*.rs'))):
+        try:
+            src = open(f, encoding='utf-8').read()
+        except OSError:
+            continue
+        cut = src.find('#[cfg(test)]')
+        body = src[:cut] if cut > 0 else src
+        have = {}
+        for n in re.findall(r'\bfn\s+([a-zA-Z_0-9]+)', body):
+            have[n] = have.get(n, 0) + 1
+        base = inv.get(os.path.basename(f), {})
+        for n, c in sorted(have.items()):
+            if c > base.get(n, 0):
+                out.append((os.path.basename(f), n))
+    return out
+
+
 def c18_scan():
     import scan_state
     return scan_state.scan(REPO)
@@ -106,13 +132,18 @@ def search_failing_input(pid, obligations):
 def run_extras(pid, tier):
     rep = dict(complete=[], bounded=[], harnesses=[], native=None, violations=[], undecided=[])
     rep['undecided'] += assumption_guards(pid)
+    # a function that did not exist when the contracts were written is outside every contract: totality (C08) is undecided for it, and so is the
+    # no-leak property (C17) when it is a rendering function (fmt)
+    for (f_, n_) in new_functions():
+        if pid == 'C08' or (pid == 'C17' and n_ == 'fmt'):
+            rep['undecided'].append('%s: new function `%s` is not under contract' % (f_, n_))
     if pid == 'C18':
         sc = c18_scan()
         rep['c18_scan'] = sc
         for f in sc['shared_mutable_state'] + sc['unexpected_lazy_statics']:
             rep['violations'].append(dict(obligation='C18.no_shared_mutable_state', kind='structural-scan', function=None, message='shared mutable state: ' + f,
                                           clause=None, repo_site=None, properties=['C18'], verifier_output='tools/scan_state.py: ' + f))
-    if pid in ('C12', 'C15', 'C05', 'C16', 'C01', 'C02', 'C13'):
+    if pid in ('C12', 'C15', 'C05', 'C16', 'C01', 'C02', 'C13', 'C17'):
         # standing bounded checks of the compiled get_content_type_and_charset, trim_ascii, IntoRequestBytes impls, VecSignedHeaderRequirements::add_*/remove_*: these are
         # under contract by now, but through outlined iterator idioms / declared desugarings; the compiled originals are compared with the same specs, bounded
         st = native_run(['standing', pid], timeout=120)
